@@ -811,6 +811,17 @@ func (f *fn) builtin(x *ast.CallExpr, name string) (val, error) {
 			vs = append(vs, v.term)
 		}
 		return val{term: "(" + a.term + " ++ [" + strings.Join(vs, "; ") + "])", pre: pre, t: a.t}, nil
+	case "new":
+		// new(T): a pointer to a zero T (pointers are transparent)
+		t, err := f.ctype(x, f.info.TypeOf(x))
+		if err != nil {
+			return val{}, err
+		}
+		z, err := f.g.zero(t)
+		if err != nil {
+			return val{}, f.errf(x, "%v", err)
+		}
+		return val{term: z, t: t}, nil
 	case "make":
 		t, err := f.ctype(x, f.info.TypeOf(x))
 		if err != nil {
